@@ -53,11 +53,11 @@ for pid, text in sorted(P2.items()):
 P3 = {
  "C01": ("exploration", "PROVED per program for classes with a static piece structure, BOUNDED for the rest: RT_T is discharged deductively (emitted deserialize, nested/case classes inlined, executed over the interpreted bytes of WIRE_T(obj) with a concrete-structured reader; integer and string codecs enter as instances of the proved C07/C04/C08 lemmas) for all in-domain classes without symbolic-count arrays (counts in evidence under proved_for_fixed_size_classes); classes with length-field / read-to-end arrays need an induction that is not built and are decided by runtime round trips of seeded valid values over every wire-unambiguous class of the realistic corpus and the enumerated specs. The ingredients it rests on are proved elsewhere: C02 (bytes = WIRE_T), C03 (deserialize = reading rules), C04/C06/C07 (writer->reader pairs, chunk isolation, codec)",
          "runtime-checked round-trip contract on the real generated classes (bounded stand-in for the contract-based proof)"),
- "C14": ("exploration", "BOUNDED stand-in (not proved): ProtocolEnumMeta.__call__ is six lines delegating to CPython's EnumMeta.__call__ / int.__new__, whose behaviour a VC could only assume; its runtime contract (the statement, clause by clause) is evaluated on hand-written and generated enums x integers under both installed interpreters",
+ "C14": ("exploration", "BOUNDED stand-in (not proved): ProtocolEnumMeta.__call__ is six lines delegating to CPython's EnumMeta.__call__ / int.__new__, whose behaviour a VC could only assume; its runtime contract (the statement, clause by clause) is evaluated on hand-written and generated enums x integers (plain ints and ints that are not: the enum's own members, bools, members of other enums, int-subclass and Unrecognized instances) under both installed interpreters",
          "runtime-checked contract on the real ProtocolEnumMeta.__call__ under CPython 3.11 and 3.12 (bounded stand-in)"),
  "C17": ("exploration", "PROVED leaf guards and per-step flag threading + BOUNDED composition: 23 generator functions under contract and discharged (the eight FieldCodeGenerator._validate_* as `raises <=> RULE`, _check_optional_field, _generate_break, _make_packet_suffix, _create_type_with_specified_length; generate_instruction, _generate_field/_array/_length, SwitchCodeGenerator.generate_case and TypeFactory.get_type as one-directional must_raise contracts with opaque calls; FieldCodeGenerator._get_type_length; placement transfer contracts on generate_instruction, _generate_field/_array/_length, _generate_dummy, _generate_chunked, _generate_switch, generate_case, generate_case_data_type; the frame assumption of the opaque calls is scanned syntactically on every run); that the flags an instruction sees are those of its syntactic position is the composition of these steps (meta-step), and 'wherever it occurs' as a whole is bounded: the real generator is run on the statement's rule catalogue x nesting positions x files and on every enumerated instruction sequence the independent rule reader xmlsem.wellformed finds ill-formed; it must raise and write no module for the offending class",
          "runtime post-condition of the real generator over a rule-violation catalogue (bounded stand-in)"),
- "C18": ("exploration", "BOUNDED stand-in (not proved): generation over valid trees x hash seeds x shuffled directory enumeration x both interpreters x pre-populated output must be byte-identical, complete and importable with every declared type exported; the code carrying this (set iteration, sorting, list surgery during iteration, os.walk, file writes) is outside the VC generator's fragment",
+ "C18": ("exploration", "BOUNDED stand-in (not proved): generation over valid trees (realistic, cross-referencing, sibling-only, with directory gaps, enumerated) x hash seeds x shuffled / ascending / descending directory enumeration x both interpreters x pre-populated output must be byte-identical, complete and importable with every declared type exported; the code carrying this (set iteration, sorting, list surgery during iteration, os.walk, file writes) is outside the VC generator's fragment",
          "runtime-checked contracts on ProtocolCodeGenerator.generate / CodeBlock.to_string outputs (bounded stand-in)"),
 }
 for pid, (lvl, text, tech) in sorted(P3.items()):
